@@ -44,6 +44,8 @@ mod kbucket;
 mod protocol;
 mod query;
 mod record;
+#[cfg(libp2p_verif)]
+pub mod verif;
 
 mod proto {
     #![allow(unreachable_pub)]
